@@ -8,6 +8,7 @@
 //verif:include jws_sign_env.go
 //verif:harness H_C16_jws_sign_attrs
 //verif:harness H_C16_jws_sign_signer
+//verif:harness H_C08_jws_sign_fold
 package jws
 
 import (
@@ -52,6 +53,15 @@ func buildRequestS() *signature.SignRequest {
 		a := attrS{key: rt.Havoc[any](q + ".key"), crit: rt.Bool(q + ".critical"), val: rt.Havoc[any](q + ".Value")}
 		attrsS = append(attrsS, a)
 		req.ExtendedSignedAttributes = append(req.ExtendedSignedAttributes, signature.Attribute{Key: a.key, Critical: a.crit, Value: a.val})
+		if i == 0 && foldModelS {
+			if t, isText := a.key.(string); isText {
+				foldIdxS = rt.Choose("fold.key", len(specKeysS))
+				foldAfterS = rt.Choose("fold.sorts.after", 2) == 1
+				for _, s := range specKeysS { // it differs in case, so it is none of the specified keys itself
+					rt.Assume(rt.Not(rt.StrEq(t, s)))
+				}
+			}
+		}
 	}
 	if focusS == 1 || focusS == 3 || focusS == 4 {
 		wellBehavedS, lateFaultsS = true, focusS == 3
@@ -100,6 +110,9 @@ func invalidAttrsS() bool {
 }
 
 func H_C16_jws_sign_attrs()  { focusS = 1; signJWS() }
+
+// the same with a first attribute whose key differs from a specified header only in letter case
+func H_C08_jws_sign_fold() { focusS = 1; foldModelS = true; signJWS() }
 func H_C16_jws_sign_signer() { focusS = 2; signJWS() }
 
 func jwsRowOfKeySpec() int {
@@ -153,8 +166,9 @@ func signJWS() {
 	}
 	rt.AssertKnown(rt.Implies(inv, err != nil), "C16.jws.invalid.request.rejected", "F8", payloadKind == 1)
 	if focusS == 1 {
-		// with an environment that does not fail, every valid request is signed
-		rt.Assert(rt.Implies(err != nil, inv), "C08.jws.valid.request.succeeds")
+		// with an environment that does not fail, every valid request is signed (open: an attribute key that differs from
+		// a specified header only in letter case may be refused)
+		rt.Assert(rt.Implies(err != nil, rt.Or(inv, foldIdxS >= 0)), "C08.jws.valid.request.succeeds")
 	}
 	// ---- C15.L3
 	wantTS := rt.And(isX509, req.Timestamper != nil)
